@@ -1,7 +1,20 @@
 """C05 — no two services ever own the same host and path."""
 import os
 from m4check import run_property
-from vlib import COQ
+from vlib import *
+
+
+def race_stress(res, work, tier):
+    """Concurrent form of 'exactly one of several racing deploys succeeds' (real scheduler)."""
+    rounds = 12 if tier == "quick" else 120
+    rc, out = go_test(work, ["common_test.go", "sim_test.go", "simrun_test.go", "assets_test.go", "c05_race_test.go"],
+                      "^TestVerifC05Race$", {"VERIF_OUT": work.path("race.jsonl"), "VERIF_ROUNDS": str(rounds)}, timeout=900, synctest=True)
+    if rc != 0 or not os.path.exists(work.path("race.jsonl")):
+        return False, [], out
+    rows = read_jsonl(work.path("race.jsonl"))
+    bad = [r for r in rows if r["succeeded"] != 1 or r["owners_listed"] != 1]
+    res.coverage["race_stress"] = {"rounds": len(rows), "racers_per_round": 8, "rounds_with_exactly_one_winner": len(rows) - len(bad)}
+    return True, bad, out
 
 
 def run(tier, seed):
@@ -9,4 +22,4 @@ def run(tier, seed):
         "C05", tier, seed, ["C05.v"], ["props/C05.vo"],
         profile={"deploy": 14, "deploy_fail": 2, "remove": 5, "restart": 2, "rollout_deploy": 1, "rollout_set": 0,
                  "rollout_stop": 0, "pause": 1, "stop": 1, "resume": 1},
-        monitor="c05_ok h", n_quick=40, n_thorough=600)
+        monitor="c05_ok h", n_quick=40, n_thorough=600, extra=race_stress)
